@@ -214,7 +214,7 @@ def case_init_tuple(n, with_phases, dtype="int8"):
             cl.append(("R", L.EQ(st.R, data[0])))
             cl.append(("S", L.EQ(st.S, data[1])))
             cl.append(("phases", L.EQ(st.phases, data[2] if with_phases else np.zeros(n, dtype=np.int64))))
-            cl.append(("dtypes_int8", all(np.dtype(S.decl_of(getattr(st, a)) if isinstance(getattr(st, a), S.SArr) else getattr(st, a).dtype) == np.int8 for a in ("R", "S", "phases"))))
+            cl.append(("dtypes_integer", all(np.dtype(S.decl_of(getattr(st, a)) if isinstance(getattr(st, a), S.SArr) else getattr(st, a).dtype).kind in "iub" for a in ("R", "S", "phases"))))
         return cl
 
     def native(st, data):
